@@ -42,8 +42,55 @@ IDENTITY_FNS = ("std::boxed::Box::<T>::new", "std::convert::From::from", "std::c
 HOF_METHODS = {"map", "filter", "for_each", "all", "any", "position", "find", "filter_map", "flat_map", "map_err",
                "and_then", "unwrap_or_else", "ok_or_else", "or_else", "is_some_and", "is_none_or", "retain",
                "take_while", "skip_while", "find_map", "inspect", "then", "map_or", "map_or_else", "fold",
-               "rposition", "max_by_key", "min_by_key", "sort_by_key", "sort_by", "partition", "is_ok_and"}
+               "rposition", "max_by_key", "min_by_key", "sort_by_key", "sort_by", "partition", "is_ok_and",
+               "try_for_each", "try_fold", "map_while", "next_if", "min_by", "max_by", "is_some_and"}
 OPTION_HOFS = {"map_err": "Err", "and_then": None, "unwrap_or_else": "Err", "ok_or_else": None, "or_else": "Err"}
+
+
+
+class Int:
+    """Integer literal.  Python identifies True with 1 and False with 0 (`("lit", 1) == ("lit", True)`, same hash), which would
+    merge `len == 1` with `len == true` in every memo table; integer literals are therefore kept in a type of their own that
+    is equal to plain ints but never to bools."""
+    __slots__ = ("v",)
+
+    def __init__(self, v):
+        self.v = int(v)
+
+    def __eq__(self, o):
+        if isinstance(o, Int):
+            return self.v == o.v
+        return type(o) is int and o == self.v
+
+    def __ne__(self, o):
+        return not self.__eq__(o)
+
+    def __hash__(self):
+        return hash(("Int", self.v))
+
+    def __repr__(self):
+        return repr(self.v)
+
+    def __int__(self):
+        return self.v
+
+    __index__ = __int__
+
+    def __lt__(self, o):
+        return self.v < int(o)
+
+    def __le__(self, o):
+        return self.v <= int(o)
+
+    def __gt__(self, o):
+        return self.v > int(o)
+
+    def __ge__(self, o):
+        return self.v >= int(o)
+
+
+def lit_value(v):
+    return Int(v) if type(v) is int else v
 
 
 def mk_ite(c, a, b):
@@ -241,7 +288,7 @@ def pat_desc(p):
     if k == "ptup":
         return ("tuple", tuple(pat_desc(s) for s in p["subs"]), p.get("dd"))
     if k == "plit":
-        return ("lit", p.get("v"))
+        return ("lit", lit_value(p.get("v")))
     if k == "prange":
         lo = p.get("lo") or {}
         hi = p.get("hi") or {}
@@ -266,6 +313,58 @@ def desc_variants(d):
             out |= v
         return out
     return None
+
+
+def is_concrete_term(t):
+    """Has a known outermost constructor (worth specialising a callee for)."""
+    return isinstance(t, tuple) and bool(t) and t[0] in ("ctor", "struct", "lit", "vec", "array") or \
+        (isinstance(t, tuple) and bool(t) and t[0] == "tuple" and any(is_concrete_term(x) for x in t[1]))
+
+
+def is_fresh_collection(t):
+    if not (t[0] == "call" and isinstance(t[1], str)):
+        return False
+    name = t[1].rsplit("::", 1)[-1]
+    if name == "with_capacity" and len(t[2]) == 1:
+        return True                 # the capacity is not part of the value
+    return name in ("new", "default") and not [a for a in t[2] if a[0] != "lit"]
+
+
+def as_push_step(u, lv):
+    """u == ite(C, mut(lv <- push(V)), lv)  (or with the branches swapped)  ->  (C, V)"""
+    if u[0] != "ite":
+        return None
+    if u[3] == lv:
+        cond, m = u[1], u[2]
+    elif u[2] == lv:
+        cond, m = ("not", u[1]), u[3]
+    else:
+        return None
+    if m[0] == "mut" and m[1] == lv and m[2][0] == "call" and isinstance(m[2][1], str) and m[2][1].rsplit("::", 1)[-1] in ("push", "push_back") and len(m[2][2]) == 1:
+        return cond, m[2][2][0]
+    return None
+
+
+def as_insert_step(u, lv):
+    """u == mut(lv <- insert(K, V))  or  ite(C, mut(lv <- insert(K, V)), lv)   ->   (C, K, V)"""
+    cond = ("lit", True)
+    if u[0] == "ite":
+        if u[3] == lv:
+            cond, u = u[1], u[2]
+        elif u[2] == lv:
+            cond, u = ("not", u[1]), u[3]
+        else:
+            return None
+    if u[0] == "mut" and u[1] == lv and u[2][0] == "call" and isinstance(u[2][1], str) and u[2][1].rsplit("::", 1)[-1] == "insert" and len(u[2][2]) == 2:
+        return cond, u[2][2][0], u[2][2][1]
+    return None
+
+
+def strip_iter_adapters(t):
+    while isinstance(t, tuple) and t and t[0] == "call" and isinstance(t[1], str) and t[1].rsplit("::", 1)[-1] in \
+            ("iter", "into_iter", "rev", "cloned", "copied", "by_ref", "iter_mut") and len(t[2]) == 1:
+        t = t[2][0]
+    return t
 
 
 class Site:
@@ -341,6 +440,79 @@ def merge_states(a, b, cond):
     return State(env, a.may | b.may, a.must & b.must)
 
 
+def assume(t, pc):
+    """Simplify a term under the facts of a path condition: occurrences of a condition term are replaced by its known value."""
+    facts = []
+    for c in pc:
+        if c[0] == "if":
+            x, pol = c[1], c[2]
+            while x[0] == "not":
+                x, pol = x[1], not pol
+            facts.append((x, pol))
+    if not facts:
+        return t
+    memo = {}
+
+    def go(x):
+        if not isinstance(x, tuple) or not x:
+            return x
+        if x in memo:
+            return memo[x]
+        r = None
+        for f, pol in facts:
+            if x == f:
+                r = ("lit", pol)
+                break
+        if r is None:
+            r = tuple(go(y) if isinstance(y, tuple) else y for y in x)
+            if r[0] == "ite" and r[1] == ("lit", True):
+                r = r[2]
+            elif r[0] == "ite" and r[1] == ("lit", False):
+                r = r[3]
+            elif r[0] == "ite" and r[1][0] == "not" and r[1][1] in (("lit", True), ("lit", False)):
+                r = r[3] if r[1][1] == ("lit", True) else r[2]
+        memo[x] = r
+        return r
+
+    return go(t)
+
+
+def pc_term(pc, skip_try=False):
+    """Path condition as one Boolean term (loop / closure markers carry no condition)."""
+    out = None
+    for c in pc:
+        if skip_try and c[0] == "if" and len(c) > 4 and c[4] == "try":
+            continue
+        if c[0] == "if":
+            t = c[1] if c[2] else ("not", c[1])
+        elif c[0] == "match":
+            t = ("matches", c[1], c[2]) if c[3] else ("not", ("matches", c[1], c[2]))
+        else:
+            continue
+        out = t if out is None else ("bin", "&&", out, t)
+    return out
+
+
+def ret_term(returns):
+    """Value of a function with several exits: exits are mutually exclusive, earlier ones take precedence, so the value is
+    ite(c1, t1, ite(c2, t2, .. t_last)).  Exits inside loops keep their (loop-variable dependent) conditions."""
+    rs = [r for r in returns if r[0] != NEVER]
+    if not rs:
+        return NEVER
+    if len(rs) == 1:
+        return rs[0][0]
+    if all(r[0] == rs[0][0] for r in rs):
+        return rs[0][0]
+    acc = rs[-1][0]
+    for r in reversed(rs[:-1]):
+        c = pc_term(r[1], skip_try=True)      # the value describes the exits taken when no `?` fires
+        if c is None:
+            acc = mk_join([r[0], acc])
+        else:
+            acc = mk_ite(c, r[0], acc)
+    return acc
+
+
 class Engine:
     """Memoising interprocedural driver. `hooks`: object with optional methods
        on_site(ev, site)  -- may modify ev.st.may / ev.st.must
@@ -353,6 +525,25 @@ class Engine:
         self.memo = {}
         self.stack = []
         self.max_depth = max_depth
+        self.pe_memo = {}
+        self.pe_stack = []
+
+    def specialise(self, fn, bindings):
+        """Online partial evaluation: summarise `fn` with some parameters bound to concrete constructor terms. Branches whose
+        condition folds to a constant are not explored, loops over literal collections are unrolled, local callees that receive
+        concrete arguments are specialised in turn."""
+        key = (fn.qual, tuple(sorted(bindings.items(), key=lambda kv: kv[0])))
+        if key in self.pe_memo:
+            return self.pe_memo[key]
+        if key in self.pe_stack or len(self.pe_stack) > 24:
+            return None
+        self.pe_stack.append(key)
+        try:
+            s = Evaluator(self, fn, bindings=dict(bindings)).run()
+        finally:
+            self.pe_stack.pop()
+        self.pe_memo[key] = s
+        return s
 
     def summary(self, fn):
         if fn.qual in self.memo:
@@ -370,13 +561,17 @@ class Engine:
 
 
 class Evaluator:
-    def __init__(self, engine, fn):
+    def __init__(self, engine, fn, bindings=None):
         self.eng = engine
         self.prog = engine.prog
         self.fn = fn
+        self.bindings = bindings or {}
+        self.pe = bool(bindings)
+        self._fold_memo = {}
         self.summ = Summary(fn)
         self.st = None
         self.pc = []              # path condition stack
+        self._pc_marks = []
         self.loop_stack = []      # (loop_id, break_states, continue_states, label)
         self.closure_stack = []
         self.ordinals = {}
@@ -391,11 +586,52 @@ class Evaluator:
         v = self.expr(self.fn.body)
         if self.st is not None and not self._tail_done:
             self._ret(v, self.fn.body, "tail")
-        self.summ.ret = mk_join([r[0] for r in self.summ.returns if r[5] != "try"])
+        self._normalize()
+        import norm
+        self.summ.ret = norm.Normalizer()(ret_term([r for r in self.summ.returns if r[5] != "try"]))
         return self.summ
 
+    def _normalize(self):
+        """Idiom normal forms (norm.py) for everything a rule can look at."""
+        import norm
+        nz = norm.Normalizer()
+        sm = self.summ
+        sm.returns = [(nz(t), nz.pc(pc), may, must, node, kind) for (t, pc, may, must, node, kind) in sm.returns]
+        for s in sm.sites + sm.deep_sites:
+            if s.args:
+                s.args = [nz(a) if isinstance(a, tuple) else a for a in s.args]
+            if isinstance(s.term, tuple):
+                s.term = nz(s.term)
+            s.pc = nz.pc(s.pc)
+        for lid, info in sm.loops.items():
+            if "vars" in info:
+                info["vars"] = {k: (nz(i), nz(u)) for k, (i, u) in info["vars"].items()}
+            if info.get("cond") is not None:
+                info["cond"] = nz(info["cond"])
+
+    def _close_returns(self, start, close):
+        """A `return` inside a loop yields the value of its variables at *some* iteration: the loop iterate (mu)."""
+        rs = self.summ.returns
+        for i in range(start, len(rs)):
+            t, pc, may, must, node, kind = rs[i]
+            # what is known on this exit (its own path condition) is used before the loop variables are closed
+            import norm
+            nz = norm.Normalizer()
+            t = nz(assume(nz(t), nz.pc(pc)))
+            rs[i] = (close(t), pc, may, must, node, kind)
+
+    def fold(self, t):
+        """Constant folding of a term (only in partial-evaluation mode)."""
+        if not self.pe:
+            return t
+        import partial
+        import norm
+        return norm.Normalizer()(partial.simplify(t, self._fold_memo))
+
     def _bind_param(self, p, env):
-        if p.get("k") == "bind":
+        if p.get("k") == "bind" and p["name"] in self.bindings:
+            env[p["lid"]] = self.bindings[p["name"]]
+        elif p.get("k") == "bind":
             env[p["lid"]] = ("param", p["name"])
         else:
             # destructured parameter: name it by position
@@ -527,9 +763,9 @@ class Evaluator:
             scrut = v
             d = pat_desc(s["pat"])
             saved = self.st.copy()
-            self.pc.append(("match", scrut, d, False, s.get("ln")))
+            self._pc_push(("match", scrut, d, False, s.get("ln")))
             self.expr(s["els"])
-            self.pc.pop()
+            self._pc_pop()
             self.st = saved
             self.pc.append(("match", scrut, d, True, s.get("ln")))   # holds for the rest of the block
         self._bind(s["pat"], v, self.st.env)
@@ -547,9 +783,9 @@ class Evaluator:
             # bindings of the left operand are visible on the right
             for pat, scrut in bl:
                 self._bind(pat, scrut, self.st.env)
-            self.pc.append(("if", l, True, n["id"]))       # short-circuit: the right operand is only evaluated when the left holds
+            self._pc_push(("if", l, True, n["id"]))       # short-circuit: the right operand is only evaluated when the left holds
             r, br = self.cond(n["r"])
-            self.pc.pop()
+            self._pc_pop()
             return ("bin", "&&", l, r), bl + br
         return self.expr(n), []
 
@@ -557,20 +793,28 @@ class Evaluator:
         c, binds = self.cond(n["c"])
         if self.st is None:
             return NEVER
+        if self.pe:
+            cf = self.fold(c)
+            if cf == ("lit", True):
+                for pat, scrut in binds:
+                    self._bind(pat, self.fold(scrut), self.st.env)
+                return self.expr(n["t"])
+            if cf == ("lit", False):
+                return self.expr(n["e"]) if n.get("e") else UNIT
         base = self.st
         # then
         self.st = base.copy()
         for pat, scrut in binds:
             self._bind(pat, scrut, self.st.env)
-        self.pc.append(("if", c, True, n["id"]))
+        self._pc_push(("if", c, True, n["id"]))
         tv = self.expr(n["t"])
-        self.pc.pop()
+        self._pc_pop()
         ts = self.st
         # else
         self.st = base.copy()
-        self.pc.append(("if", c, False, n["id"]))
+        self._pc_push(("if", c, False, n["id"]))
         ev = self.expr(n["e"]) if n.get("e") else UNIT
-        self.pc.pop()
+        self._pc_pop()
         es = self.st
         self.st = merge_states(ts, es, c)
         # a diverging branch makes the other branch's condition known for the rest of the enclosing block
@@ -593,26 +837,52 @@ class Evaluator:
             # matches!(e, PAT [if guard]) -- keep as a predicate term
             a0 = n["arms"][0]
             if not a0.get("guard"):
-                return ("matches", scrut, pat_desc(a0["pat"]))
+                return self.fold(("matches", scrut, pat_desc(a0["pat"])))
+        concrete = None
+        if self.pe:
+            import partial
+            sc = self.fold(scrut)
+            if partial.is_concrete(sc):
+                concrete = sc
+                scrut = sc
         base = self.st
         results = []
         out_state = None
         prior = []
         for idx, arm in enumerate(n["arms"]):
-            self.st = base.copy()
             d = pat_desc(arm["pat"])
+            if concrete is not None:
+                import partial
+                m = partial.match_desc(d, concrete)
+                if m is False:
+                    continue
+                if m is True:
+                    self.st = base.copy()
+                    self._bind(arm["pat"], scrut, self.st.env)
+                    if arm.get("guard"):
+                        g, gb = self.cond(arm["guard"])
+                        gf = self.fold(g)
+                        if gf == ("lit", False):
+                            continue
+                        if gf == ("lit", True):
+                            for pat, sc_ in gb:
+                                self._bind(pat, sc_, self.st.env)
+                            return self.expr(arm["body"])
+                    elif not results:
+                        return self.expr(arm["body"])
+            self.st = base.copy()
             self._bind(arm["pat"], scrut, self.st.env)
-            self.pc.append(("match", scrut, d, True, n["id"], tuple(prior), idx))
+            self._pc_push(("match", scrut, d, True, n["id"], tuple(prior), idx))
             g = None
             if arm.get("guard"):
                 g, gb = self.cond(arm["guard"])
                 for pat, sc in gb:
                     self._bind(pat, sc, self.st.env)
-                self.pc.append(("if", g, True, arm["guard"].get("id")))
+                self._pc_push(("if", g, True, arm["guard"].get("id")))
             v = self.expr(arm["body"])
             if g is not None:
-                self.pc.pop()
-            self.pc.pop()
+                self._pc_pop()
+            self._pc_pop()
             if self.st is not None:
                 results.append(((d, g), v))
                 out_state = self.st if out_state is None else merge_states(out_state, self.st, ("arm", n["id"], idx))
@@ -646,16 +916,37 @@ class Evaluator:
 
     def loop_expr(self, n, kind):
         lid_loop = n["id"]
+        it = None
         if kind == "for":
             it = self.expr(n["iter"])
             if self.st is None:
                 return NEVER
+            if self.pe:
+                coll = strip_iter_adapters(self.fold(it))
+                if is_fresh_collection(coll) and not coll[2] and any(c in coll[1] for c in ("Vec", "HashSet", "HashMap", "BTree", "VecDeque")):
+                    coll = ("vec", ())
+                if coll[0] in ("vec", "array") and len(coll[1]) <= 8:
+                    # a loop over a literal collection is unrolled
+                    for item in coll[1]:
+                        if self.st is None:
+                            break
+                        self._bind(n["pat"], item, self.st.env)
+                        self.loop_stack.append([n["id"], [], [], n.get("label"), n.get("loop_id", n["id"])])
+                        self.expr(n["body"])
+                        fr = self.loop_stack.pop()
+                        for s_ in fr[2]:
+                            self.st = s_ if self.st is None else merge_states(self.st, s_, ("unrolled", n["id"]))
+                        if fr[1]:
+                            self.st = fr[1][0] if self.st is None else merge_states(self.st, fr[1][0], ("unrolled-break", n["id"]))
+                            break
+                    return UNIT
             body_nodes = [n["body"]]
             self._site(node=n, kind="for", name="for", args=[it], argnodes=[n["iter"]], term=it, ty=n["iter"].get("ty"))
         elif kind == "while":
             body_nodes = [n["c"], n["body"]]
         else:
             body_nodes = [{"k": "block", "stmts": n["stmts"], "expr": n.get("expr"), "id": n["id"], "sp": n["sp"]}]
+        n_returns_before = len(self.summ.returns)
         declared = set()
         for b in body_nodes:
             for x in walk(b):
@@ -668,7 +959,7 @@ class Evaluator:
         head = self.st.copy()
         frame = [lid_loop, [], [], n.get("label"), n.get("loop_id", n["id"])]
         self.loop_stack.append(frame)
-        self.pc.append(("loop", lid_loop, kind))
+        self._pc_push(("loop", lid_loop, kind))
         exits = []
         if kind == "for":
             self._bind(n["pat"], ("elem", it), self.st.env)
@@ -681,13 +972,13 @@ class Evaluator:
                 exits.append(cond_state.copy())     # condition false
                 for pat, scrut in binds:
                     self._bind(pat, scrut, self.st.env)
-                self.pc.append(("if", c, True, n["id"]))
+                self._pc_push(("if", c, True, n["id"]))
                 self.expr(n["body"])
-                self.pc.pop()
+                self._pc_pop()
             self.summ.loops.setdefault(lid_loop, {})["cond"] = c
         else:
             self.block(body_nodes[0])
-        self.pc.pop()
+        self._pc_pop()
         self.loop_stack.pop()
         ends = [self.st] + frame[2]
         end_state = None
@@ -706,9 +997,6 @@ class Evaluator:
                 exit_state = s if exit_state is None else merge_states(exit_state, s, ("loopexit", lid_loop))
         if end_state is not None and exit_state is not None:
             exit_state = State(exit_state.env, exit_state.may | end_state.may, exit_state.must & end_state.must)
-        if exit_state is None:
-            self.st = None
-            return NEVER
         # close the loop variables
         memo = {}
 
@@ -721,6 +1009,26 @@ class Evaluator:
                 i, u = updates.get(t[2], (("unk", "loop"), t))
                 if u == t:
                     r = i            # never changed on a path back to the loop head
+                elif kind == "for" and not frame[1] and is_fresh_collection(i) and u[0] == "mut" and u[1] == t and u[2][0] == "call" \
+                        and isinstance(u[2][1], str) and u[2][1].rsplit("::", 1)[-1] in ("push", "push_back") and len(u[2][2]) == 1 \
+                        and not contains(u[2][2][0], lambda s_: s_ == t):
+                    # `for x in it { v.push(T) }` builds the same collection as `it.map(|x| T).collect()`
+                    # (other loop-carried values inside T stand for their value at that iteration)
+                    memo[t] = ("unk", "cyclic")
+                    r = ("collect", strip_iter_adapters(it), close(u[2][2][0]))
+                elif kind == "for" and not frame[1] and is_fresh_collection(i) and as_push_step(u, t) is not None \
+                        and not contains(("tuple", as_push_step(u, t)), lambda s_: s_ == t):
+                    # `for x in it { if C { v.push(T) } }` builds the same collection as `it.filter(|x| C).map(|x| T).collect()`
+                    c_, v_ = as_push_step(u, t)
+                    memo[t] = ("unk", "cyclic")
+                    r = ("collect", ("hof", "filter", strip_iter_adapters(it), close(c_), ()), close(v_))
+                elif kind == "for" and not frame[1] and is_fresh_collection(i) and as_insert_step(u, t) is not None:
+                    # `for x in it { if C { m.insert(K, V) } }` builds the map { K -> V | x in it, C }
+                    c_, k_, v_ = as_insert_step(u, t)
+                    if not contains(("tuple", (c_, k_, v_)), lambda s_: s_[0] == "loopvar" and s_[1] == lid_loop):
+                        r = ("collectmap", strip_iter_adapters(it), c_, k_, v_)
+                    else:
+                        r = ("mu", lid_loop, t[2], i, u)
                 else:
                     r = ("mu", lid_loop, t[2], i, u)
             else:
@@ -728,6 +1036,10 @@ class Evaluator:
             memo[t] = r
             return r
 
+        self._close_returns(n_returns_before, close)
+        if exit_state is None:
+            self.st = None
+            return NEVER
         for k in list(exit_state.env):
             exit_state.env[k] = close(exit_state.env[k])
         self.st = exit_state
@@ -742,9 +1054,9 @@ class Evaluator:
             self._bind(p, a, env)
         self.st.env = env
         self.closure_stack.append(cid)
-        self.pc.append(("closure", cid))
+        self._pc_push(("closure", cid))
         v = self.expr(node["body"])
-        self.pc.pop()
+        self._pc_pop()
         self.closure_stack.pop()
         if self.st is not None:
             # keep mutations of captured variables
@@ -776,6 +1088,20 @@ class Evaluator:
                 loops=tuple(l[0] for l in self.loop_stack) + tuple(s.loops or ()), term=subst(s.term, mapping, memo) if isinstance(s.term, tuple) else s.term,
                 ordinal=s.ordinal, ty=s.ty, closure=s.closure))
 
+    def beta(self, t, depth=0):
+        """Apply closures of the current function that were passed to an inlined callee: (closure#c)(args) -> body."""
+        if not isinstance(t, tuple) or not t or depth > 60 or self.st is None:
+            return t
+        if t[0] == "callv" and t[1][0] == "closure" and t[1][1] in self.summ.closures:
+            args = [self.beta(a, depth + 1) for a in t[2]]
+            r = self.apply_closure(t[1][1], args)
+            return r if self.st is not None else NEVER
+        if not any(isinstance(x, tuple) for x in t):
+            return t
+        if not contains(t, lambda s_: s_[0] == "callv"):
+            return t
+        return tuple(self.beta(x, depth + 1) if isinstance(x, tuple) else x for x in t)
+
     def local_callee(self, def_path):
         return self.prog.resolve_local(self.fn.crate, def_path)
 
@@ -794,7 +1120,17 @@ class Evaluator:
             if h is not None and hasattr(h, "opaque") and h.opaque(target):
                 opaque = True
             if not opaque:
-                cs = self.eng.summary(target)
+                cs = None
+                if self.pe:
+                    fargs = [self.fold(a) for a in args]
+                    conc = {}
+                    for i_, p_ in enumerate(target.params):
+                        if p_.get("k") == "bind" and i_ < len(fargs) and is_concrete_term(fargs[i_]):
+                            conc[p_["name"]] = fargs[i_]
+                    if conc:
+                        cs = self.eng.specialise(target, conc)
+                if cs is None:
+                    cs = self.eng.summary(target)
                 if cs is None:
                     term = ("rec", target.path, tuple(args))
                 else:
@@ -805,6 +1141,7 @@ class Evaluator:
                             mapping[nm] = args[i]
                     term = subst(cs.ret, mapping)
                     self._import_sites(cs, mapping)
+                    term = self.beta(term)
             else:
                 term = ("call", target.path, tuple(args))
         if term is None:
@@ -892,16 +1229,44 @@ class Evaluator:
                 site = self._site(node=n, kind="mcall", callee=d, inst=n.get("inst"), name=name, args=[recv] + other + [cl],
                                   argnodes=argnodes, ty=n.get("ty"))
                 nparams = len(fa_s["params"])
+                is_opt = rty.lstrip("&").replace("mut ", "").startswith(("std::option::Option", "std::result::Result"))
                 if name in ("fold",) and nparams == 2:
-                    cargs = [("unk", "acc"), ("elem", recv)]
-                elif rty.lstrip("&").replace("mut ", "").startswith(("std::option::Option", "std::result::Result")):
+                    cargs = [("loopvar", n["id"], "acc"), ("elem", recv)]
+                elif is_opt:
                     cargs = [("payload", recv)] * nparams
                 else:
                     cargs = [("elem", recv)] * nparams
+                if not is_opt:
+                    # an iterator adapter with a closure is a loop over the receiver for every site-based rule
+                    self._site(node=n, kind="for", name="for", args=[recv], argnodes=[n["recv"]], term=recv, ty=rty)
+                    self.loop_stack.append([n["id"], [], [], None, n["id"]])
+                    self._pc_push(("loop", n["id"], "hof:" + name))
+                    self.summ.loops.setdefault(n["id"], {}).update({"kind": "for", "node": n, "vars": {}, "hof": name})
+                    # captured locals mutated by the closure are loop-carried: their final value is the iterate (mu)
+                    cnode = self.summ.closures[cl[1]][0]
+                    declared = set()
+                    for x in walk(cnode["body"]):
+                        if x.get("k") == "let":
+                            declared |= {lid for lid, _ in pat_bindings(x["pat"])}
+                    hof_carried = {lid: nm for lid, nm in self._assigned_locals([cnode["body"]], declared).items() if lid in self.st.env}
+                    hof_init = {lid: self.st.env[lid] for lid in hof_carried}
+                    for lid, nm in hof_carried.items():
+                        self.st.env[lid] = ("loopvar", n["id"], nm)
                 body = self.apply_closure(cl[1], cargs)
+                if not is_opt:
+                    self._pc_pop()
+                    self.loop_stack.pop()
+                    if self.st is not None:
+                        for lid, nm in hof_carried.items():
+                            lv = ("loopvar", n["id"], nm)
+                            upd = self.st.env.get(lid, lv)
+                            self.st.env[lid] = hof_init[lid] if upd == lv else ("mu", n["id"], nm, hof_init[lid], upd)
                 if self.st is None:
                     return NEVER
-                t = ("hof", name, recv, body, tuple(other))
+                if name == "fold" and nparams == 2 and other:
+                    t = ("mu", n["id"], "acc", other[0], body)
+                else:
+                    t = ("hof", name, recv, body, tuple(other))
                 site.term = t
                 return t
             if fa_s.get("k") == "path" and fa_s.get("res") == "def" and fa_s.get("dk") in ("Fn", "AssocFn"):
@@ -949,7 +1314,7 @@ class Evaluator:
         return ("unk", "path:" + str(r))
 
     def e_lit(self, n):
-        return ("lit", n.get("v"))
+        return ("lit", lit_value(n.get("v")))
 
     def e_call(self, n):
         return self.call_expr(n)
@@ -994,9 +1359,9 @@ class Evaluator:
             if self.st is None:
                 return NEVER
             base = self.st.copy()
-            self.pc.append(("if", l, op == "&&", n["id"]))
+            self._pc_push(("if", l, op == "&&", n["id"]))
             r = self.expr(n["r"])
-            self.pc.pop()
+            self._pc_pop()
             self.st = merge_states(self.st, base, l)
             return ("bin", op, l, r)
         l = self.expr(n["l"])
@@ -1033,6 +1398,10 @@ class Evaluator:
             return NEVER
         self._site(node=n, kind="index", callee=n.get("ovl"), name="index", args=[b, i], argnodes=[n["e"], n["i"]],
                    ty=n.get("ety"))
+        ety = str(n.get("ety", ""))
+        if "HashMap<" in ety or "BTreeMap<" in ety:
+            # `map[key]` is `map.get(key).unwrap()` (same value, same panic)
+            return ("proj", ("call", "#map::get", (b, i)), "std::prelude::v1::Some", 0)
         return ("index", b, i)
 
     def e_struct(self, n):
@@ -1152,6 +1521,13 @@ class Evaluator:
                 return f
         return self.loop_stack[-1] if self.loop_stack else None
 
+    def _pc_push(self, c):
+        self._pc_marks.append(len(self.pc))
+        self.pc.append(c)
+
+    def _pc_pop(self):
+        del self.pc[self._pc_marks.pop():]
+
     def e_try(self, n):
         v = self.expr(n["e"])
         if self.st is None:
@@ -1161,6 +1537,9 @@ class Evaluator:
         self._site(node=n, kind="try", name="?", args=[v], argnodes=[n["e"]], ty=ty)
         if not self.closure_stack:
             self.summ.returns.append((v, tuple(self.pc), self.st.may, self.st.must, n, "try"))
+        # the rest of the enclosing block is only reached when the value was Ok / Some
+        import norm
+        self.pc.append(("if", ("matches", v, norm.OK_DESC if is_res else norm.SOME_DESC), True, n["id"], "try"))
         return mk_proj(v, "std::result::Result::Ok" if is_res else "std::option::Option::Some", 0)
 
     def e_become(self, n):
